@@ -95,3 +95,135 @@ Proof.
   pose proof dl_deadlock as H. unfold deadlocked in H. apply andb_true_iff in H as [H1 H2].
   cbv zeta. split; [exact H1|]. split; [exact H2|]. intros more tr. now apply deadlock_is_permanent.
 Qed.
+
+(* ---------------------------------------------------------------------------------------- *)
+(* [blocked] is exact: a thread that is not blocked changes the state                        *)
+(* ---------------------------------------------------------------------------------------- *)
+Lemma goto_neq s s1 t p' : (t < nthreads s1)%nat -> p' <> pc_of s t -> goto s1 t p' <> s.
+Proof. intros L N E. apply N. rewrite <- E. now rewrite pc_goto_same. Qed.
+
+Lemma script_neq s s1 t : script_of s1 t <> script_of s t -> s1 <> s.
+Proof. intros N E. apply N. now rewrite E. Qed.
+
+Lemma cons_neq {A} (x : A) l : l <> x :: l.
+Proof. intro E. apply (f_equal (@length A)) in E. cbn in E. lia. Qed.
+
+Lemma join_or_moves cfg s s1 t f a :
+  (t < nthreads s1)%nat -> pc_of s t <> CJoinWait f a -> pc_of s t <> PIdle \/ script_of s1 t <> script_of s t ->
+  (forall arg work, pc_of s t <> CStartSet f arg work) ->
+  fst (join_or cfg s1 t f a) <> s.
+Proof.
+  intros L N1 N2 N3. unfold join_or. destruct (f_joinable (get_fut s1 f)); cbn [fst].
+  - apply goto_neq; auto.
+  - unfold finish_join. destruct a; cbn [fst].
+    + apply goto_neq; auto.
+    + destruct N2 as [N2|N2]; [apply goto_neq; auto|].
+      apply (script_neq s _ t). rewrite (script_goto s1 t _ t L). exact N2.
+    + destruct N2 as [N2|N2]; [apply goto_neq; auto|].
+      apply (script_neq s _ t). rewrite (script_goto s1 t _ t L). exact N2.
+    + destruct N2 as [N2|N2]; [apply goto_neq; auto|].
+      apply (script_neq s _ t). rewrite (script_goto s1 t _ t L). exact N2.
+Qed.
+
+Lemma ghost_ring_threads t s e : st_threads (ghost_ring t s e) = st_threads s.
+Proof.
+  destruct e as [tk v|tk|tk v]; cbn [ghost_ring]; try reflexivity.
+  - destruct v; reflexivity.
+  - destruct (nth _ _ _); reflexivity.
+Qed.
+
+Lemma nthreads_ghost t revs : forall s0, nthreads (fold_left (ghost_ring t) revs s0) = nthreads s0.
+Proof.
+  induction revs as [|e l IH]; intro s0; [reflexivity|]. cbn [fold_left]. rewrite IH.
+  unfold nthreads. now rewrite ghost_ring_threads.
+Qed.
+
+Lemma unblocked_moves cfg s t clk :
+  (t < nthreads s)%nat -> blocked s t = false -> fst (step cfg s t clk) <> s.
+Proof.
+  intros Lt Hb. unfold blocked in Hb. unfold step.
+  destruct (Nat.ltb_spec t (length (st_threads s))) as [_|Hge]; [|unfold nthreads in Lt; lia]. cbn [negb] in *.
+  change (t_pc (get_thread s t)) with (pc_of s t) in *.
+  destruct (pc_of s t) eqn:Epc; try discriminate;
+    try (cbn [fst]; apply goto_neq; [exact Lt|rewrite Epc; discriminate]).
+  - (* PIdle *)
+    change (t_script (get_thread s t)) with (script_of s t).
+    destruct (script_of s t) as [|[i op] rest] eqn:Esc.
+    { cbn [fst]. apply goto_neq; [exact Lt|rewrite Epc; discriminate]. }
+    set (s1 := set_threads s (upd t (mkThread PIdle rest i) (st_threads s))).
+    assert (L1 : (t < nthreads s1)%nat) by (unfold nthreads, s1; cbn; now rewrite upd_length).
+    assert (Sc : script_of s1 t <> script_of s t).
+    { unfold script_of at 1. unfold s1. rewrite get_thread_upd by exact Lt. rewrite Nat.eqb_refl. cbn. rewrite Esc. apply cons_neq. }
+    assert (J : forall f a, fst (join_or cfg s1 t f a) <> s).
+    { intros f a. apply join_or_moves; auto; rewrite Epc; try discriminate; intros; discriminate. }
+    destruct op; try apply J.
+    + destruct (st_pool s1); [apply J|]. cbn [fst]. apply goto_neq; [exact L1|rewrite Epc; discriminate].
+    + cbn [fst]. apply (script_neq s _ t). unfold script_of, put_fut, get_thread in *. cbn [st_threads set_futs]. exact Sc.
+    + cbn [fst]. apply (script_neq s _ t). exact Sc.
+    + cbn [fst]. apply (script_neq s _ t). exact Sc.
+    + destruct (c_nested cfg); cbn [fst]; [apply goto_neq; [exact L1|rewrite Epc; discriminate]|apply (script_neq s _ t); exact Sc].
+  - (* PRing *)
+    destruct (ring_step (st_ring s) r) as [[r' rp'] revs] eqn:Er. cbn [fst].
+    apply goto_neq.
+    + rewrite nthreads_ghost. exact Lt.
+    + rewrite Epc. destruct r; cbn [ring_step] in Er;
+        repeat match type of Er with context [if ?c then _ else _] => destruct c end;
+        inversion Er; subst; try discriminate;
+        try (destruct k; cbn; try discriminate; repeat match goal with |- context [if ?c then _ else _] => destruct c end; discriminate);
+        try (destruct b; destruct k; cbn; discriminate);
+        try (destruct r0; destruct k; cbn; try discriminate; destruct (c_fixed cfg); discriminate).
+      destruct r as [j|]; destruct k; cbn; try discriminate; destruct (c_fixed cfg); discriminate.
+  - (* PFs *)
+    destruct (fs_step (c_fixed cfg) (get_fs s w) o) as [g' o'] eqn:Efs.
+    assert (L1 : (t < nthreads (set_fs s w g'))%nat) by (destruct w; exact Lt).
+    destruct o' as [o2|]; cbn [fst]; apply goto_neq; try exact L1; rewrite Epc.
+    + destruct o; cbn [fs_step] in Efs;
+        repeat match type of Efs with context [if ?c then _ else _] => destruct c eqn:? end;
+        inversion Efs; subst; try discriminate.
+      (* FWait2 -> FWait2 only when the flag is clear: blocked, excluded by Hb *)
+    + destruct k; cbn; try discriminate. destruct j; discriminate.
+  - (* CSpin *) rewrite Hb. cbn [fst]. apply goto_neq; [exact Lt|rewrite Epc; discriminate].
+  - (* CRecheck *) destruct (st_pool s); cbn [fst]; apply goto_neq; try exact Lt; rewrite Epc; discriminate.
+  - (* CUnlockPool *)
+    apply join_or_moves; auto; rewrite Epc; try discriminate; try (left; discriminate); intros; discriminate.
+  - (* CJoinWait *)
+    apply negb_false_iff in Hb. rewrite Hb. cbn [fst]. apply goto_neq; [exact Lt|rewrite Epc; discriminate].
+  - (* CJoinReset *)
+    destruct (finish_join cfg _ t f a (Some _)) as [s2 evs] eqn:Ef. cbn [fst].
+    unfold finish_join in Ef. destruct a; inversion Ef; subst; apply goto_neq; try exact Lt; rewrite Epc; discriminate.
+  - (* CRdTc *)
+    cbn [fst]. apply goto_neq; [exact Lt|]. rewrite Epc.
+    repeat match goal with |- context [if ?c then _ else _] => destruct c end; discriminate.
+  - (* CGrowLock *) rewrite Hb. cbn [fst]. apply goto_neq; [exact Lt|rewrite Epc; discriminate].
+  - (* CGrowInc *) destruct (_ <? _); cbn [fst]; apply goto_neq; try exact Lt; rewrite Epc; discriminate.
+  - (* CGrowUnlock *) cbn [fst]. apply goto_neq; [exact Lt|rewrite Epc; destruct ctx; discriminate].
+  - (* CSpawn *)
+    cbn [fst]. apply goto_neq; [|rewrite Epc; discriminate].
+    unfold nthreads in *. cbn. rewrite app_length. lia.
+  - (* CShrinkLock *) rewrite Hb. cbn [fst]. apply goto_neq; [exact Lt|rewrite Epc; discriminate].
+  - (* CShrinkChk *) destruct (_ <? _); cbn [fst]; apply goto_neq; try exact Lt; rewrite Epc; discriminate.
+  - (* CShrinkDec *) cbn [fst]. apply goto_neq; [exact Lt|rewrite Epc; destruct (c_fixed cfg); discriminate].
+  - (* WCall *)
+    rewrite Hb. destruct (c_nested cfg && (4 <=? work)%nat); cbn [fst].
+    + intro E. apply (f_equal (fun s => pc_of s t)) in E. rewrite Epc in E.
+      unfold pc_of in E. rewrite get_thread_upd in E by (unfold nthreads, put_fut in *; cbn; exact Lt).
+      rewrite Nat.eqb_refl in E. discriminate.
+    + apply goto_neq; [exact Lt|rewrite Epc; discriminate].
+  - (* WSigSet *) cbn [fst]. apply goto_neq; [exact Lt|rewrite Epc; destruct (c_sigfix cfg); discriminate].
+Qed.
+
+(* The state can change no more exactly when every thread is blocked; such a state is permanent. *)
+Theorem stuck_iff_all_blocked cfg s :
+  (forall t clk, fst (step cfg s t clk) = s) <-> all_blocked s = true.
+Proof.
+  split.
+  - intro H. unfold all_blocked. apply forallb_forall. intros t Ht. apply in_seq in Ht.
+    destruct (blocked s t) eqn:Eb; [reflexivity|]. exfalso.
+    apply (unblocked_moves cfg s t false); [unfold nthreads; lia|exact Eb|apply H].
+  - intros H t clk. now rewrite all_blocked_stutter.
+Qed.
+
+Theorem join_liveness_partial_lemma cfg s :
+  ((forall t clk, fst (step cfg s t clk) = s) <-> all_blocked s = true) /\
+  (all_blocked s = true -> forall sched tr, exec_from cfg s tr sched = (s, tr)).
+Proof. split; [apply stuck_iff_all_blocked|]. intros H sched tr. now apply deadlock_is_permanent. Qed.
